@@ -110,7 +110,7 @@ namespace igris
 
             const_iterator operator++(int)
             {
-                iterator i = *this;
+                const_iterator i = *this;
                 current = current->next;
                 return i;
             }
@@ -153,7 +153,7 @@ namespace igris
         }
         const_iterator end() const
         {
-            return const_iterator(&head);
+            return const_iterator((slist_head *)&head);
         }
     };
 }
